@@ -192,6 +192,11 @@ def _impl_bnd(case):
             del f2
             v['hex'] = b.hex()
             v['rewritten'] = open(o, 'rb').read().hex()
+            # writing is a query: the object that was written is unchanged and can be written again to the same bytes
+            v['tflag_after'] = [[int(a), int(c_)] for a, c_ in np.asarray(f.variables['TFLAG'][:, 0, :])]
+            os.remove(o)
+            pncgen(f, o, format='camxfiles.lateral_boundary', verbose=0)
+            v['rewritten2'] = open(o, 'rb').read().hex()
             return v
     except lib.HarnessError:
         raise
@@ -229,6 +234,10 @@ def _oracle_bnd(case, res):
             if a != b:
                 return 'written back: record %d differs from the file that was read' % i
         return 'written back: %d records, the file read has %d' % (len(recs), len(want))
+    if res.get('tflag_after') is not None and res['tflag_after'] != res['tflag']:
+        return 'writing the file changed the TFLAG of the object that was written: %s -> %s' % (res['tflag'], res['tflag_after'])
+    if res.get('rewritten2') is not None and res['rewritten2'] != res['rewritten']:
+        return 'the same object written a second time gives other bytes than the first time'
     return None
 
 
